@@ -58,10 +58,32 @@ def _gen(a):
     return case
 
 
+def _execute(chk, case):
+    """chk.execute(case); for checks that say so, an exception that comes out of the library's own code (innermost frame inside the tree
+    under test) while the check makes calls the property covers is the library failing that call: a violation, not a harness error"""
+    try:
+        return chk.execute(case)
+    except Exception as e:
+        if not getattr(chk, "library_exception_is_violation", False):
+            raise
+        import traceback
+
+        root = os.path.realpath(core.repo_root())
+        frames = traceback.extract_tb(e.__traceback__)
+        if not frames or not os.path.realpath(frames[-1].filename).startswith(root + os.sep):
+            raise
+        fr = frames[-1]
+        res = core.RunResult()
+        res.violate(chk.pid + ".library-call-raised", f"{os.path.relpath(fr.filename, root)}:{fr.name}",
+                    f"{fr.name} ({os.path.relpath(fr.filename, root)}:{fr.lineno}) raised {type(e).__name__}: {str(e)[:200]} during a call the check makes with valid arguments")
+        res["digest"] = format(core.derive("library-call-raised", fr.name, type(e).__name__), "x")
+        return res
+
+
 def _exec(a):
     chk, case = a
     core.apply_env(case.get("env"))
-    res = chk.execute(case)
+    res = _execute(chk, case)
     return res
 
 
@@ -69,7 +91,7 @@ def _gen_exec(a):
     chk, arm, i, run_seed, tier, want_sample, verif_seed = a
     case = _gen((chk, arm, i, run_seed, tier, verif_seed))
     core.apply_env(case.get("env"))
-    res = chk.execute(case)
+    res = _execute(chk, case)
     res.fault("env_logging_" + case["env"]["logging"], 0 if case["env"]["logging"] == "off" else 1)
     res.fault("env_warnings_as_errors", 1 if case["env"].get("warnings") == "error" else 0)
     res["env"] = case["env"]
